@@ -317,9 +317,9 @@ class PhaseGrating(PhaseApodizer):
 
     @property
     def amplitude(self):
-        return self._amplitude
+        return self._grating_amplitude
 
     @amplitude.setter
     def amplitude(self, new_amplitude):
-        self._amplitude = new_amplitude
+        self._grating_amplitude = new_amplitude
         self.phase = self.grating_pattern
